@@ -13,6 +13,16 @@ package usage
 //@ func (*usage.Handler).Handle
 //@ props C19
 //@ ensures [C19:only-deletes-are-ever-allowed] result.Allowed ==> request.Operation == "DELETE"
+// whatever the delete options say (dry run, propagation policy, grace period), a delete is
+// allowed by nothing but the usage check of the object decoded from the request
+//@ ghost checked bool = false
+//@ ghost verdict bool = false
+//@ let $obj = recv (*unstructured.Unstructured).UnmarshalJSON
+//@ optional site (*usage.Handler).validateNoUsages(_, _, $u, _)
+//@   assert [C19:usage-check-is-for-the-deleted-object] $u == $obj
+//@   update checked = true
+//@   update verdict = result.Allowed
+//@ ensures [C19:allowed-only-by-the-usage-check] result.Allowed ==> checked && verdict
 
 //@ func (*usage.Handler).validateNoUsages
 //@ props C19
